@@ -12,6 +12,7 @@ import DateutilVerif.Proofs.RDAlgebra
 import DateutilVerif.Proofs.RDGenEq
 import DateutilVerif.Model.RDHistory
 import DateutilVerif.Proofs.RDScale
+import DateutilVerif.Generated.WdOps
 
 namespace C16
 open RDM RDP
@@ -625,6 +626,121 @@ theorem mulDyadic_spec_gen (d r : RD) (f : RDPy.Dy) (p : RDPy.Pow2)
   have := mulDyadic_spec d f.m f.k
   exact ⟨this.1, this.2.2.2.2.2.2.2.2.2.2.1, this.2.2.2.2.2.2.2.2.2.2.2⟩
 
+/-! ## `dateutil._common.weekday` — the objects in relativedelta's `weekday` field (and rrule's BYDAY)
+
+`Gen.wdInit / wdCall / wdEq / wdNe / wdHash / wdReduce / wdRepr` are translated from `_common.py` (`Gen.wdInitRR` from
+`rrule.weekday.__init__`) on every run; `WdPy.Wd = Int × Option Int` is the type of `RD.weekday`'s payload. -/
+
+/-- `("MO", …, "SU")[w]`: IndexError outside −7..6, negative indices wrap -/
+theorem getIdx_names (w : Int) :
+    Py.getIdx WdPy.names w = if w < -7 ∨ w ≥ 7 then .error .IndexError
+      else .ok (WdPy.names.getD (if w < 0 then w + 7 else w).toNat "") := by
+  by_cases hr : w < -7 ∨ w ≥ 7
+  · rw [if_pos hr]
+    unfold Py.getIdx
+    have hl : ((WdPy.names.length : Nat) : Int) = 7 := by decide
+    simp only [hl]
+    rw [if_pos (by split <;> omega)]
+  · rw [if_neg hr]
+    have : w = -7 ∨ w = -6 ∨ w = -5 ∨ w = -4 ∨ w = -3 ∨ w = -2 ∨ w = -1 ∨ w = 0 ∨ w = 1 ∨ w = 2 ∨ w = 3 ∨ w = 4 ∨
+        w = 5 ∨ w = 6 := by omega
+    rcases this with h | h | h | h | h | h | h | h | h | h | h | h | h | h <;> subst h <;> decide +kernel
+
+/-- **gen_weekday_eq_model.** Every translated method of `weekday` equals the hand model. -/
+theorem gen_weekday_eq_model (w : WdPy.Wd) (n : Option Int) (o : WdPy.Other) (a : Int) :
+    Gen.wdInit a n = .ok (a, n) ∧ Gen.wdCall w n = .ok (WdPy.call w n) ∧ Gen.wdEq w o = .ok (WdPy.eq w o) ∧
+    Gen.wdNe w o = .ok (WdPy.ne w o) ∧ Gen.wdHash w = .ok (WdPy.hashKey w) ∧ Gen.wdReduce w = .ok w ∧
+    Gen.wdRepr w = WdPy.repr w ∧ Gen.wdInitRR a n = WdPy.initRR a n := by
+  have hEq : Gen.wdEq w o = .ok (WdPy.eq w o) := by
+    unfold Gen.wdEq WdPy.eq
+    cases o with
+    | noAttr => rfl
+    | wd v =>
+      obtain ⟨w1, w2⟩ := w; obtain ⟨v1, v2⟩ := v
+      by_cases h1 : w1 = v1 <;> by_cases h2 : w2 = v2 <;> simp [h1, h2]
+  refine ⟨rfl, ?_, hEq, ?_, rfl, rfl, ?_, ?_⟩
+  · unfold Gen.wdCall WdPy.call Gen.wdInit
+    by_cases h : n = w.2
+    · simp [h, Except.bind]
+    · simp [h, Except.bind]
+  · unfold Gen.wdNe; rw [hEq]; simp [Except.bind, WdPy.ne]
+  · unfold Gen.wdRepr
+    rw [show (["MO", "TU", "WE", "TH", "FR", "SA", "SU"] : List String) = WdPy.names from rfl, getIdx_names]
+    unfold WdPy.repr
+    obtain ⟨w1, w2⟩ := w
+    by_cases hr : w1 < -7 ∨ w1 ≥ 7
+    · simp [hr, Except.bind]
+    · cases w2 with
+      | none => simp [hr, Except.bind, WdPy.truthy]
+      | some v => by_cases hv : v = 0 <;> simp [hr, Except.bind, WdPy.truthy, WdPy.fmtNth, hv]
+  · unfold Gen.wdInitRR WdPy.initRR Gen.wdInit; rfl
+
+/-- **weekday_eq_hash.** On weekday objects `==` is an equivalence (it is equality of the two slots), `!=` its negation,
+    equal objects hash equal (the hashed tuple is the pair of slots), and nothing without the attributes is equal to one. -/
+theorem weekday_eq_hash (a b c : WdPy.Wd) :
+    Gen.wdEq a (.wd a) = .ok true ∧
+    (Gen.wdEq a (.wd b) = .ok true ↔ a = b) ∧
+    (Gen.wdEq a (.wd b) = .ok true → Gen.wdEq b (.wd a) = .ok true) ∧
+    (Gen.wdEq a (.wd b) = .ok true → Gen.wdEq b (.wd c) = .ok true → Gen.wdEq a (.wd c) = .ok true) ∧
+    (Gen.wdEq a (.wd b) = .ok true → Gen.wdHash a = Gen.wdHash b) ∧
+    Gen.wdEq a .noAttr = .ok false ∧ Gen.wdNe a .noAttr = .ok true := by
+  have h : ∀ x y : WdPy.Wd, Gen.wdEq x (.wd y) = .ok true ↔ x = y := by
+    intro x y
+    rw [(gen_weekday_eq_model x none (.wd y) 0).2.2.1]
+    simp [WdPy.eq]
+  refine ⟨(h a a).2 rfl, h a b, fun e => (h b a).2 ((h a b).1 e).symm,
+    fun e1 e2 => (h a c).2 (((h a b).1 e1).trans ((h b c).1 e2)), fun e => by rw [(h a b).1 e], ?_, ?_⟩
+  · rw [(gen_weekday_eq_model a none .noAttr 0).2.2.1]; rfl
+  · rw [(gen_weekday_eq_model a none .noAttr 0).2.2.2.1]; rfl
+
+/-- **weekday_n_strict_here.** At the level of the weekday class `n` absent, 0 and 1 are THREE different objects (`MO != MO(+1)`,
+    different hashed tuples); it is `relativedelta.__eq__` / `__hash__` (`RDM.wdEq`, `hashKey`) that identify them — the C16
+    law "equal deltas hash equal, including weekdays whose n is absent, 0 or 1" lives there, and the two levels agree
+    wherever the weekday class says equal. -/
+theorem weekday_n_strict_here (w : Int) :
+    Gen.wdEq (w, none) (.wd (w, some 1)) = .ok false ∧ Gen.wdEq (w, some 0) (.wd (w, some 1)) = .ok false ∧
+    Gen.wdHash (w, none) ≠ Gen.wdHash (w, some 1) ∧
+    RDM.wdEq (some (w, none)) (some (w, some 1)) = true ∧ RDM.wdEq (some (w, some 0)) (some (w, some 1)) = true ∧
+    (∀ a b : WdPy.Wd, Gen.wdEq a (.wd b) = .ok true → RDM.wdEq (some a) (some b) = true) := by
+  refine ⟨?_, ?_, ?_, ?_, ?_, ?_⟩
+  · rw [(gen_weekday_eq_model _ none _ 0).2.2.1]; simp [WdPy.eq]
+  · rw [(gen_weekday_eq_model _ none _ 0).2.2.1]; simp [WdPy.eq]
+  · simp [Gen.wdHash]
+  · simp [RDM.wdEq, RDM.nTrivial]
+  · simp [RDM.wdEq, RDM.nTrivial]
+  · intro a b h
+    rw [(weekday_eq_hash a b a).2.1] at h
+    subst h
+    obtain ⟨x, n⟩ := a
+    simp [RDM.wdEq]
+
+/-- **weekday_call_spec.** `wd(n)` is the weekday `wd.weekday` with the new `n`; it is the SAME object exactly when `n` equals
+    the object's own `n` (so `MO(None) is MO`, `MO(+1)(+1)` is itself, and `MO(+1)` builds a new object on every call). -/
+theorem weekday_call_spec (w r : WdPy.Wd) (n : Option Int) (same : Bool) (h : Gen.wdCall w n = .ok (r, same)) :
+    r = (w.1, n) ∧ (same = true ↔ n = w.2) ∧ (same = true → r = w) := by
+  rw [(gen_weekday_eq_model w n .noAttr 0).2.1] at h
+  injection h with h
+  unfold WdPy.call at h
+  injection h with h1 h2
+  refine ⟨h1.symm, ?_, ?_⟩
+  · rw [← h2]; simp
+  · intro hs; rw [← h2] at hs; simp at hs; rw [← h1, hs]
+
+/-- **weekday_repr_spec.** `repr`: the bare two-letter name when `n` is None or 0 (so `repr` does not distinguish them), the name
+    followed by the signed `n` in parentheses otherwise; IndexError exactly outside −7..6. -/
+theorem weekday_repr_spec (w : Int) (n : Option Int) :
+    (w < -7 ∨ w ≥ 7 → Gen.wdRepr (w, n) = .error .IndexError) ∧
+    (0 ≤ w → w < 7 → Gen.wdRepr (w, none) = .ok (WdPy.names.getD w.toNat "") ∧
+                      Gen.wdRepr (w, some 0) = Gen.wdRepr (w, none) ∧
+                      (∀ v, v ≠ 0 → Gen.wdRepr (w, some v) =
+                         .ok (WdPy.names.getD w.toNat "" ++ "(" ++ WdPy.fmtSigned v ++ ")"))) := by
+  simp only [(gen_weekday_eq_model _ none .noAttr 0).2.2.2.2.2.2.1, WdPy.repr]
+  refine ⟨fun h => by simp [h], fun h0 h7 => ?_⟩
+  have hn : ¬ (w < -7 ∨ w ≥ 7) := by omega
+  have hw : ¬ w < 0 := by omega
+  simp [hn, hw]
+  intro v hv; simp [hv]
+
 -- non-vacuity / sanity
 example : Gen.fix { seconds := -3661, microseconds := 2500000 } =
     { hours := -1, minutes := 0, seconds := -59, microseconds := 500000, hasTime := 1 } := by decide
@@ -647,5 +763,9 @@ example : mulDyadic { days := 3, hours := 5, years := 1, months := 2 } 1 1 = { d
   decide +kernel     -- relativedelta(years=1, months=2, days=3, hours=5) * 0.5 (every field truncated toward zero)
 example : divPow2 { days := -7, minutes := 90 } true 1 = { days := 3, minutes := -45, hasTime := 1 } := by decide +kernel
 example : normalizedInt { hours := 100, minutes := -61, hasTime := 0 } = { days := 4, hours := 3, minutes := -1, hasTime := 1 } := by
+  decide +kernel
+example : Gen.wdRepr (0, some (-2)) = .ok "MO(-2)" ∧ Gen.wdRepr (6, some 1) = .ok "SU(+1)" ∧ Gen.wdRepr (-1, none) = .ok "SU" := by
+  decide +kernel
+example : Gen.wdCall (0, some 1) (some 1) = .ok ((0, some 1), true) ∧ Gen.wdCall (0, none) (some 1) = .ok ((0, some 1), false) := by
   decide +kernel
 end C16
